@@ -62,5 +62,7 @@ AllTransparent == \A i \in 0 .. (Size(lru.c) - 1) :
    lru.t[i].occ => (lru.t[i].key \in DOMAIN last /\ lru.t[i].val = last[lru.t[i].key]) \/
                    (\* an entry that is no longer reachable under its own hash may be stale
                     lru.t[i].hash % Size(lru.c) # i)
+(* the link to LruProof.tla: every entry sits in the slot of its own hash, also after growth (the Rehash step of the proof) *)
+OwnSlot == \A i \in 0 .. (Size(lru.c) - 1) : lru.t[i].occ => lru.t[i].hash % Size(lru.c) = i
 FilledUpper == Cardinality({i \in 0 .. (Size(lru.c) - 1) : lru.t[i].occ}) <= lru.filled
 =============================================================================
